@@ -578,6 +578,35 @@ int api_op(const char *name, int lineno)
         }
         return 1;
     }
+    if (!strcmp(name, "stdpol") || !strcmp(name, "profpol")) { /* n  |  profile is_rtcp : the policy helper functions */
+        static void (*const setters[])(srtp_crypto_policy_t *) = {
+            srtp_crypto_policy_set_rtp_default, srtp_crypto_policy_set_rtcp_default,
+            srtp_crypto_policy_set_aes_cm_128_hmac_sha1_32, srtp_crypto_policy_set_aes_cm_128_null_auth,
+            srtp_crypto_policy_set_null_cipher_hmac_sha1_80, srtp_crypto_policy_set_null_cipher_hmac_null,
+            srtp_crypto_policy_set_aes_cm_256_hmac_sha1_80, srtp_crypto_policy_set_aes_cm_256_hmac_sha1_32,
+            srtp_crypto_policy_set_aes_cm_256_null_auth, srtp_crypto_policy_set_aes_cm_192_hmac_sha1_80,
+            srtp_crypto_policy_set_aes_cm_192_hmac_sha1_32, srtp_crypto_policy_set_aes_cm_192_null_auth,
+            srtp_crypto_policy_set_aes_gcm_128_16_auth, srtp_crypto_policy_set_aes_gcm_256_16_auth };
+        srtp_crypto_policy_t p;
+        srtp_err_status_t st = srtp_err_status_ok;
+        memset(&p, 0, sizeof p);
+        if (!strcmp(name, "stdpol")) {
+            if (IA[0] < 0 || IA[0] >= (long long)(sizeof setters / sizeof setters[0])) st = srtp_err_status_bad_param;
+            else setters[IA[0]](&p);
+        } else {
+            st = IA[1] ? srtp_crypto_policy_set_from_profile_for_rtcp(&p, (srtp_profile_t)IA[0])
+                       : srtp_crypto_policy_set_from_profile_for_rtp(&p, (srtp_profile_t)IA[0]);
+        }
+        out_z(st);
+        if (!st) { out_z(p.cipher_type); out_z((long long)p.cipher_key_len); out_z(p.auth_type); out_z((long long)p.auth_key_len);
+                   out_z((long long)p.auth_tag_len); out_z(p.sec_serv); }
+        return 1;
+    }
+    if (!strcmp(name, "proflen")) {
+        out_z((long long)srtp_profile_get_master_key_length((srtp_profile_t)IA[0]));
+        out_z((long long)srtp_profile_get_master_salt_length((srtp_profile_t)IA[0]));
+        return 1;
+    }
     if (!strcmp(name, "failnth")) { fail_countdown = IA[0]; return 1; }
     if (!strcmp(name, "heap")) { /* live blocks, attempts and frees since last call, dirty frees */
         static long last_att = 0, last_free = 0;
